@@ -145,6 +145,30 @@ def handmade(minor):
     l['cells'][0]['metadata']['grp']['p'] = 10; r['cells'][0]['metadata']['grp']['q'] = 20
     l['cells'][0]['metadata']['ver'] = 'vL'; r['cells'][0]['metadata']['ver'] = 'vR'
     out.append(('metadata_conflict_plus_onesided_edits_under_one_key', bm_, l, r))
+    # one side only re-executed a cell (transient fields only), the other side replaced / deleted that cell -- both orders
+    oc = {'output_type': 'execute_result', 'data': {'text/plain': '2'}, 'metadata': {}, 'execution_count': 2}
+    bt = _nb(minor, [_code(minor, 'a = 1\n', 0, ec=1), _code(minor, 'b = a + 1\nb\n', 1, outputs=[oc], ec=2), _code(minor, 'c = 3\n', 2, ec=3)])
+    rerun = copy.deepcopy(bt); rerun['cells'][1]['execution_count'] = 7; rerun['cells'][1]['outputs'][0]['execution_count'] = 7
+    rerun['cells'][1]['metadata']['collapsed'] = True
+    newc = _code(minor, 'import math\nx = math.pi\nprint(x)\n', 9, ec=None)
+    repl = copy.deepcopy(bt); repl['cells'][1:2] = [copy.deepcopy(newc)]
+    dele = copy.deepcopy(bt); del dele['cells'][1]
+    insb = copy.deepcopy(bt); insb['cells'].insert(1, copy.deepcopy(newc))
+    out.append(('rerun_vs_replace', bt, copy.deepcopy(rerun), repl)); out.append(('replace_vs_rerun', bt, copy.deepcopy(repl), copy.deepcopy(rerun)))
+    out.append(('rerun_vs_delete', bt, copy.deepcopy(rerun), dele)); out.append(('delete_vs_rerun', bt, copy.deepcopy(dele), copy.deepcopy(rerun)))
+    out.append(('rerun_vs_insert_before', bt, copy.deepcopy(rerun), insb))
+    if minor >= 5:
+        # both sides gave the same matched cell a new, different id (cut / paste back, id-regenerating tools)
+        for acc in ('plain', 'source_local', 'source_both'):
+            l = copy.deepcopy(bt); r = copy.deepcopy(bt)
+            l['cells'][1]['id'] = 'local-new-id'; r['cells'][1]['id'] = 'remote-new-id'
+            if acc != 'plain': l['cells'][0]['source'] = 'a = 10\n'
+            if acc == 'source_both': r['cells'][2]['source'] = 'c = 30\n'
+            out.append(('reid_both_' + acc, bt, l, r))
+        l = copy.deepcopy(bt); r = copy.deepcopy(bt)
+        for c_ in l['cells']: c_['id'] = 'L-' + c_['id']
+        for c_ in r['cells']: c_['id'] = 'R-' + c_['id']
+        out.append(('reid_all_both', bt, l, r))
     # metadata conflicts -> nbdime-conflicts record (cell and notebook level)
     b4 = _nb(minor, [_code(minor, 'x\n', 0, metadata={'k': 1})], md={'title': 't', 'k': 1})
     l = copy.deepcopy(b4); l['cells'][0]['metadata']['k'] = 2; l['metadata']['k'] = 2
@@ -337,6 +361,45 @@ def lifted_patches_triple(r):
     return ('lifted:%s@4.%d' % ('nb' if nb_level else 'cell', minor), b, l, rm)
 
 
+def reid_both_triple(r):
+    """4.5 notebook in which both sides changed the id of the same cell(s) to different fresh values, possibly next to
+    ordinary edits elsewhere"""
+    b = gennb.gen_notebook(r, minor=5, ncells=r.choice([1, 2, 3, 4]), rich=False)
+    used = gennb.used_ids(b)
+    l = copy.deepcopy(b); rm = copy.deepcopy(b)
+    idx = r.sample(range(len(b['cells'])), r.choice([1, 1, 2]) if len(b['cells']) > 1 else 1)
+    for i in idx:
+        l['cells'][i]['id'] = gennb.gen_id(r, used); rm['cells'][i]['id'] = gennb.gen_id(r, used)
+    rest = [i for i in range(len(b['cells'])) if i not in idx]
+    if rest and r.random() < 0.6:
+        j = r.choice(rest); side = r.choice([l, rm])
+        side['cells'][j]['source'] = gennb.edit_source_text(r, side['cells'][j]['source'], side['cells'][j]['cell_type'], 'line')
+    return ('reid_both@4.5', b, l, rm)
+
+
+def rerun_vs_replace_triple(r):
+    """one side only re-executed code cell i (execution counts, nothing else), the other side replaced it (new cell(s)
+    directly before it, the cell itself removed), deleted it, or only inserted before it; either side"""
+    minor = r.choice([3, 4, 5, 5]); used = set()
+    cells = [gennb.gen_cell(r, minor, used, rich=False) for _ in range(r.choice([1, 2, 3, 4]))]
+    i = r.randrange(len(cells))
+    c = gennb.gen_cell(r, minor, used, rich=False, kind='code'); c['execution_count'] = r.randint(1, 20)
+    c['outputs'] = [gennb.gen_output(r, c['execution_count'], rich=False) for _ in range(r.choice([0, 1, 2]))]
+    cells[i] = c
+    b = {'cells': cells, 'metadata': {}, 'nbformat': 4, 'nbformat_minor': minor}
+    rerun = copy.deepcopy(b); n = c['execution_count'] + r.randint(1, 30)
+    rerun['cells'][i]['execution_count'] = n
+    for o in rerun['cells'][i]['outputs']:
+        if o['output_type'] == 'execute_result': o['execution_count'] = n
+    other = copy.deepcopy(b); how = r.choice(['replace', 'replace', 'delete', 'insert_before'])
+    new = [gennb.gen_cell(r, minor, used, rich=False) for _ in range(r.choice([1, 1, 2]))]
+    if how == 'replace': other['cells'][i:i + 1] = new
+    elif how == 'delete': del other['cells'][i]
+    else: other['cells'][i:i] = new
+    if r.random() < 0.5: return ('rerun_vs_%s:local_reran@4.%d' % (how, minor), b, rerun, other)
+    return ('rerun_vs_%s:remote_reran@4.%d' % (how, minor), b, other, rerun)
+
+
 def gen_triples(r, n, repo, minors_mix=0.15):
     """-> [(name, base, local, remote)]: hand-made (every minor), fixtures, generated"""
     out = corpus_triples('C04')
@@ -347,6 +410,8 @@ def gen_triples(r, n, repo, minors_mix=0.15):
     for _ in range(max(10, n // 8)): out.append(multi_insert_triple(r))
     for _ in range(max(8, n // 12)): out.append(output_insert_vs_change_triple(r))
     for _ in range(max(8, n // 12)): out.append(lifted_patches_triple(r))
+    for _ in range(max(8, n // 12)): out.append(reid_both_triple(r))
+    for _ in range(max(10, n // 10)): out.append(rerun_vs_replace_triple(r))
     for i in range(max(40, n // 2)):
         minor = r.choice([0, 1, 2, 3, 4, 4, 5, 5, 5])
         b, l, rm = gennb.gen_triple(r, conflict_bias=0.75, minor=minor, ncells=r.choice([0, 1, 2, 2, 3, 4, 5]))
